@@ -903,3 +903,78 @@ def _inputmut(ctx):
         "parsing the same tree a second time, or emitting it afterwards, no longer sees the same input",
         objects_only=True,
     )
+
+
+def cachekey_rule(ctx, rule, reach):
+    """
+    A cache that OUTLIVES the call that fills it — a dict the function is handed as a parameter (`memo=None`) — must be
+    keyed by everything the cached value depends on that can differ between the calls sharing it. Shape looked for, in
+    the functions of `reach`:  `C[K] = g(A...)` / `C.setdefault(K, g(A...))`  with C a parameter of the enclosing
+    function f. The parameters of f the arguments A depend on (def-use closure) are compared with the parameters K
+    depends on; a parameter is only required in the key if some call site of f, inside a loop / comprehension / map,
+    hands it a value that varies with the iteration (the calls that share one cache object). A value cached under a
+    key that leaves such a parameter out is handed to the later call although it was computed for the earlier one.
+    """
+    from ..defuse import param_roots
+
+    index = ctx.index
+    n_sites = 0
+    for q in sorted(reach):
+        f = index.funcs.get(q)
+        if f is None or f.mod.is_test:
+            continue
+        for n in iter_own(f.node):
+            cache = key = val = None
+            if isinstance(n, ast.Assign) and len(n.targets) == 1 and isinstance(n.targets[0], ast.Subscript) and isinstance(n.targets[0].value, ast.Name) and isinstance(n.value, ast.Call):
+                cache, key, val = n.targets[0].value.id, n.targets[0].slice, n.value
+            elif isinstance(n, ast.Call) and isinstance(n.func, ast.Attribute) and n.func.attr == "setdefault" and isinstance(n.func.value, ast.Name) and len(n.args) == 2 and isinstance(n.args[1], ast.Call):
+                cache, key, val = n.func.value.id, n.args[0], n.args[1]
+            if cache is None or cache not in f.params:
+                continue
+            # the cached value must be READ back under the same key somewhere in f (else it is an output, not a cache)
+            if not any(isinstance(x, ast.Subscript) and isinstance(x.ctx, ast.Load) and isinstance(x.value, ast.Name) and x.value.id == cache for x in iter_own(f.node)) and not isinstance(n, ast.Call):
+                continue
+            n_sites += 1
+            depends = set()
+            for a in list(val.args) + [k.value for k in val.keywords]:
+                depends |= param_roots(f, a)
+            depends.discard(cache)
+            keyed = param_roots(f, key)
+            # which parameters vary between the calls that share one cache object
+            varying = set()
+            for g in index.nontest_funcs():
+                for c in iter_own(g.node):
+                    if not (isinstance(c, ast.Call) and index.callee(g.mod, c, g) == f.qual):
+                        continue
+                    loopvars = set()
+                    p_ = g.mod.parents.get(c)
+                    while p_ is not None and p_ is not g.node:
+                        if isinstance(p_, (ast.For, ast.AsyncFor)):
+                            loopvars |= set(stored_names(p_.target))
+                            loopvars |= {t for st in ast.walk(p_) if isinstance(st, (ast.Assign, ast.AugAssign)) for tt in (st.targets if isinstance(st, ast.Assign) else [st.target]) for t in stored_names(tt)}
+                        if isinstance(p_, (ast.ListComp, ast.GeneratorExp, ast.SetComp, ast.DictComp)):
+                            for ge in p_.generators:
+                                loopvars |= set(stored_names(ge.target))
+                        if isinstance(p_, ast.Lambda):
+                            loopvars |= {x.arg for x in p_.args.args}
+                        p_ = g.mod.parents.get(p_)
+                    if not loopvars:
+                        continue
+                    for pname, a in index.bound_args(g.mod, c, g).items():
+                        if any(isinstance(x, ast.Name) and x.id in loopvars for x in ast.walk(a)):
+                            varying.add(pname)
+            missing = sorted((depends & varying) - keyed)
+            ok = not missing
+            ctx.ob(
+                rule,
+                f,
+                n,
+                ok,
+                ""
+                if ok
+                else "`{}` is cached in `{}` (a cache the caller hands in, shared by its calls) under the key `{}`, but it is computed "
+                "from {} too, which differ{} from call to call: the later call is handed the value computed for the earlier one".format(
+                    short(val, 50), cache, short(key, 30), ", ".join("`{}`".format(m_) for m_ in missing), "s" if len(missing) == 1 else ""
+                ),
+            )
+    ctx.count("caches_handed_in_by_the_caller", n_sites)
